@@ -430,6 +430,7 @@ func runC14(c *eng.Ctx) {
 		}
 	}
 	ruleStoredMessageIsFresh(c)
+	ruleRecycledMessagesAreRefilled(c)
 	if fn := c.Fn("server.getMessage"); fn != nil {
 		um := eng.CallsIn(fn, "server/protocol.UnmarshalPublish")
 		if len(um) != 1 {
